@@ -21,7 +21,8 @@ else
 fi
 (cd "$tmp/repo" && go build ./... ) || { echo "MUTANT DOES NOT COMPILE"; exit 4; }
 if [ "${MUT_TEST:-0}" = 1 ]; then
-  (cd "$tmp/repo" && go test -vet=off -count=1 ./... 2>&1 | grep -v '^ok\|no test files' | head -4 ) && echo "MUTANT FAILS TESTS"
+  t=$(cd "$tmp/repo" && go test -vet=off -count=1 ./... 2>&1 | grep -v '^ok\|no test files')
+  [ -n "$t" ] && { echo "$t" | head -4; echo "MUTANT FAILS TESTS"; }
 fi
 rc=0
 for p in "$@"; do
